@@ -11,6 +11,7 @@ import (
 	resource "go.opentelemetry.io/proto/otlp/resource/v1"
 	v1 "go.opentelemetry.io/proto/otlp/trace/v1"
 	"google.golang.org/protobuf/proto"
+	"math"
 	"net/http"
 	"strconv"
 	"time"
@@ -427,6 +428,9 @@ func parseTraceSearchParams(r *http.Request) (*traceSearchParams, error) {
 	if err != nil {
 		return nil, fmt.Errorf("start: %v", err)
 	}
+	if !isUnixSecond(int64(startS)) {
+		return nil, fmt.Errorf("start: %d is not a Unix time in seconds", startS)
+	}
 	res.Start = time.Unix(int64(startS), 0)
 	if startS == 0 {
 		res.Start = time.Now().Add(time.Hour * -6)
@@ -435,11 +439,20 @@ func parseTraceSearchParams(r *http.Request) (*traceSearchParams, error) {
 	if err != nil {
 		return nil, fmt.Errorf("end: %v", err)
 	}
+	if !isUnixSecond(int64(endS)) {
+		return nil, fmt.Errorf("end: %d is not a Unix time in seconds", endS)
+	}
 	res.End = time.Unix(int64(endS), 0)
 	if endS == 0 {
 		res.End = time.Now()
 	}
 	return &res, nil
+}
+
+// isUnixSecond: the search reads a window end only when its nanosecond form is positive (0 stands for "not given"), so
+// a negative second or one whose nanoseconds leave int64 would silently drop that end of the window.
+func isUnixSecond(s int64) bool {
+	return s >= 0 && s <= math.MaxInt64/int64(time.Second)
 }
 
 func orDefault(str string, def string) string {
